@@ -90,7 +90,9 @@ def _gen_chain(rng, is_machine):
     chain = []
     for _ in range(rng.randint(1, 4)):
         step = {"save_by": rng.choice(["path", "file"]),
-                "reload": rng.choice(["from_path", "from_file", "load_same", "load_other_shape"]),
+                "reload": rng.choice(["from_path", "from_file", "load_same", "load_other_shape",
+                                      "load_rollback"]),
+                "drift": rng.choice([0.0, 1e-9, 1e-7, 1e-6, 1e-3]),
                 "load_by": rng.choice(["path", "file"])}
         chain.append(step)
     return chain
@@ -345,7 +347,17 @@ def _run_machine(case, rec, store):
                 with h5py.File(path, "r") as f:
                     new = GMMMachine.from_hdf5(f, ubm=prior)
             else:
-                if how == "load_same":
+                if how == "load_rollback":
+                    # roll back to a checkpoint: the target is the saved machine itself after
+                    # it has drifted a little (or not at all) since the checkpoint was written
+                    new = copy.deepcopy(live)
+                    dr = st.get("drift", 0.0)
+                    if dr:
+                        new.means = np.array(new.means) * (1.0 + dr)
+                        new.variances = np.array(new.variances) * (1.0 + dr)
+                        w = np.array(new.weights) * (1.0 + dr * np.arange(1, case["c"] + 1))
+                        new.weights = w
+                elif how == "load_same":
                     if prior is not None:
                         new = GMMMachine(case["c"], trainer="map", ubm=prior)
                     else:
@@ -493,6 +505,16 @@ def _run_stats(case, rec, store):
             elif how == "from_file":
                 with h5py.File(path, "r") as f:
                     new = GMMStats.from_hdf5(f)
+            elif how == "load_rollback":
+                new = copy.deepcopy(live)
+                dr = st.get("drift", 0.0)
+                new.n = np.array(new.n) * (1.0 + dr)
+                new.sum_px = np.array(new.sum_px) * (1.0 + dr)
+                if st["load_by"] == "path":
+                    new.load(path)
+                else:
+                    with h5py.File(path, "r") as f:
+                        new.load(f)
             else:
                 shp = (c, d) if how == "load_same" else tuple(case["other_shape"])
                 new = GMMStats(*shp)
